@@ -55,4 +55,12 @@ PROPS = {
         "trusted_base": COMMON_TB + ["core::str::from_utf8 (contract: utf8Valid), checked on the utf8 stream"],
         "assumptions": ["recursive derived types are unfolded deeper than the input is long"],
     },
+    "C18": {
+        "streams": ["skip", "len"],
+        "rule": "skip vs dec (outcome and remaining length) for every catalogue type on valid+suffix, mutated, truncated and exact encodings; encoded_fixed_size() of every catalogue type vs the model; DecodeLength::len on generated values (incl. 20k-element ones) of the six collections and of tuples led by them, and on mutated strings. Oracles on the implementation: skip == decode (ok-ness and position), len == true element count, fixed size == every value's size. non-trivial = distinct request whose model answer is not `err`",
+        "level_text": "Proved in Lean: DecodeLength::len on encode(coll) ++ rest is the element count, for all six collection kinds and tuples led by them; for every type and every byte string skip succeeds iff decode succeeds and then leaves the input at the same position (including the [T;N] override that skips fixed-size elements one at a time while decode reads them in bulk - shown equivalent to one bulk read); a reported encoded_fixed_size is the length of every value's encoding. Tied to the crate by the skip/len streams and oracles.",
+        "level_note": "Trusted: as C01. After a *failed* skip/decode the position of the input is not compared (the bulk decode leaves a slice untouched where the element-wise skip has consumed some elements; the property speaks of success position and of failing exactly when decode fails).",
+        "trusted_base": COMMON_TB,
+        "assumptions": ["as C01"],
+    },
 }
